@@ -317,6 +317,10 @@ fn issue(w: &mut World, step: usize) {
   if ctx::chance(1, 6) {
     o.insert("extraProperty".into(), serde_json::json!({"k": [1, 2, 3]}));
   }
+  if ctx::chance(1, 8) {
+    // an embedded proof next to the JWT envelope (typed, optional member of the credential)
+    o.insert("proof".into(), serde_json::json!({"type": "SimProof2024", "proofValue": format!("z{step}"), "created": "2024-01-01T00:00:00Z"}));
+  }
   let mut issued_index = None;
   let services: Vec<String> = w.cur_bitmaps[i].keys().cloned().collect();
   match ctx::weighted(&[3, 5, 1, 1, 1]) {
@@ -621,7 +625,8 @@ fn present_crafted(w: &mut World, step: usize) {
     "issuance_time_not_an_integer",
     "iss_spelled_with_whitespace_or_uppercase_scheme",
     "holder_object_mismatch",
-  ][ctx::choose(10)];
+    "iss_is_the_controller_of_the_document",
+  ][ctx::choose(11)];
   let now_h = w.clock.now + w.parties[h].skew;
   let mut claims = serde_json::json!({
     "iss": p.did,
@@ -642,6 +647,8 @@ fn present_crafted(w: &mut World, step: usize) {
       claims["iat"] = Value::from(now_h - 300);
     }
     "kid_names_no_did_of_the_document" => {}
+    // the holder presents under the DID of its document's CONTROLLER: well-formed claims, but not this document's id
+    "iss_is_the_controller_of_the_document" => claims["iss"] = "did:sim:controller-of-the-holder".into(),
     "iss_spelled_with_whitespace_or_uppercase_scheme" => claims["iss"] = spelled_variant(&p.did).into(),
     "issuance_time_not_an_integer" => {
       // a NumericDate far in the future that is not a JSON integer (RFC 7519 allows fractions), or an integer nbf in
@@ -1613,7 +1620,7 @@ fn validate_presentation(w: &mut World, step: usize) {
                       want = Some("IssuanceDate");
                       label = "issuance_date";
                       ctx::stat("false.p.issuance_date");
-                    } else if tp.crafted.is_some() && !matches!(tp.crafted, Some("nbf_and_iat") | Some("kid_names_no_did_of_the_document")) {
+                    } else if tp.crafted.is_some() && !matches!(tp.crafted, Some("nbf_and_iat") | Some("kid_names_no_did_of_the_document") | Some("iss_is_the_controller_of_the_document")) {
                       // disagreeing duplicated values / numeric date outside years 0000-9999
                       want = Some("PresentationStructure");
                       label = "structure";
@@ -1920,6 +1927,13 @@ pub fn run(prop: &str, _params: &Params) {
     }
     if ctx::choose(2) == 0 {
       let _ = p.gen_method("alt", if ctx::choose(2) == 0 { REL_ASSERT } else { None });
+    }
+    // a holder document may name another DID as its controller (DID-core: who may change the document - not who it is)
+    if let (AnyDoc::Core(d), 0) = (&mut p.doc, ctx::choose(3)) {
+      if let Ok(c) = identity_did::CoreDID::parse("did:sim:controller-of-the-holder") {
+        *d.controller_mut() = Some(identity_core::common::OneOrSet::new_one(c));
+        ctx::stat("probe.holder_document_with_controller");
+      }
     }
     w.parties.push(p);
   }
